@@ -87,6 +87,7 @@ fn build_spec(ids: &[usize], es: &[(usize, usize)]) -> (G, Model) {
 
 fn set_of<I: IntoIterator<Item = usize>>(i: I) -> S { i.into_iter().collect() }
 
+fn deep() -> bool { std::env::var("VERIF_TIER").map(|t| t == "thorough").unwrap_or(false) } // thorough tier: wider bounds
 fn main() {
     std::panic::set_hook(Box::new(|_| {}));
     let mut found = 0usize;
@@ -111,7 +112,7 @@ fn main() {
     for n in 1..=4usize {
         for ids in &idsets {
             for bits in 0u32..(1u32 << (n * n)) {
-                if n == 4 && ids[0] == 5 && bits % 7 != 0 { continue; } // scrambled ids: a 1/7 sample at n = 4
+                if n == 4 && ids[0] == 5 && !deep() && bits % 7 != 0 { continue; } // scrambled ids: a 1/7 sample at n = 4
                 let mut es = vec![];
                 for h in 0..n { for t in 0..n { if bits & (1 << (h * n + t)) != 0 { es.push((ids[h], ids[t])); } } }
                 specs.push((ids[..n].to_vec(), es));
@@ -120,8 +121,8 @@ fn main() {
     }
     let mut lcg: u64 = 0x9e3779b97f4a7c15 ^ std::env::var("VERIF_SEED").ok().and_then(|s| s.parse::<u64>().ok()).unwrap_or(0);
     let mut next = move || { lcg = lcg.wrapping_mul(6364136223846793005).wrapping_add(1442695040888963407); (lcg >> 33) as u32 };
-    for k in 0..24000u32 {
-        let n = 5 + (k % 4) as usize;
+    for k in 0..(if deep() { 400_000u32 } else { 24_000u32 }) {
+        let n = 5 + (k % (if deep() { 6 } else { 4 })) as usize; // thorough: up to 10 vertices
         let ids: Vec<usize> = (0..n).map(|i| if k % 3 == 0 { i * 3 + 1 } else { i }).collect();
         let density = 12 + (k / 4) % 30; // percent
         let mut es = vec![];
